@@ -177,7 +177,7 @@ for _m, _ext in (("_save_jpeg", ".jpg"),):
 
 
 @bounded("exported-bitmaps-read-back", props=["C18"],
-         bound="quick: 90 generated documents with 1..3 image XObjects (gray 8-bit, RGB 8-bit, 1-bit; width 1..40 incl. widths with width%32 in 1..7; height 1..4; unfiltered, Flate, ASCIIHex+Flate; or DCT data alone / behind Flate / ASCIIHex / ASCII85+Flate, compared byte for byte), exported with output_dir and read back with an independent BMP reader; distinct images get distinct files, existing files are kept; thorough: 2000")
+         bound="quick: 90 generated documents with 1..3 image XObjects (plus, in 30 %, two forms that each hold an image under the same resource name; gray 8-bit, RGB 8-bit, 1-bit; width 1..40 incl. widths with width%32 in 1..7; height 1..4; unfiltered, Flate, ASCIIHex+Flate; or DCT data alone / behind Flate / ASCIIHex / ASCII85+Flate, compared byte for byte), exported with output_dir and read back with an independent BMP reader; distinct images get distinct files, existing files are kept; thorough: 2000")
 def _(tier, seed):
     import io, os, random, shutil, tempfile, zlib
     from specs.pdfgen import build, Name, Ref, Stream
@@ -237,6 +237,16 @@ def _(tier, seed):
                 xobjs["Im%d" % k] = Ref(10 + k)
                 expect.append((w, h, pix))
             content = " ".join("q 10 0 0 10 %d 0 cm /Im%d Do Q" % (20 * k, k) for k in range(len(xobjs)))
+            if rng.random() < 0.3:
+                # two form XObjects, each with an image of its own under the same resource name /Im0 (names are local to a resource dictionary)
+                for fk in range(2):
+                    fraw = bytes(rng.randrange(256) for _ in range(4))
+                    objs[30 + fk] = Stream({"Type": Name("XObject"), "Subtype": Name("Image"), "Width": 2, "Height": 2, "BitsPerComponent": 8, "ColorSpace": Name("DeviceGray")}, fraw)
+                    objs[40 + fk] = Stream({"Type": Name("XObject"), "Subtype": Name("Form"), "BBox": [0, 0, 50, 50], "Resources": {"XObject": {"Im0": Ref(30 + fk)}}},
+                                           b"q 10 0 0 10 0 0 cm /Im0 Do Q")
+                    xobjs["Fm%d" % fk] = Ref(40 + fk)
+                    content += " q 1 0 0 1 %d 100 cm /Fm%d Do Q" % (60 * fk, fk)
+                    expect.append((2, 2, [[(fraw[y * 2 + x],) * 3 for x in range(2)] for y in range(2)]))
             objs[3] = {"Type": Name("Page"), "Parent": Ref(2), "MediaBox": [0, 0, 200, 200], "Contents": Ref(4), "Resources": {"XObject": xobjs}}
             objs[4] = Stream({}, content.encode())
             evals += 1
@@ -626,3 +636,36 @@ def _cp_spec(self, old):
 
 c.may_raise(PSm.PSEOF, lambda old: And(eq(old.self.charpos, old.self.buf.n), *[eq(f._left, 0) for f in _cp_candidates(old.self)]))
 c.ens("window-kept-or-taken-from-the-first-stream-that-has-bytes-left", _cp_spec)
+
+
+# -- every image item of the page tree reaches the image writer: once each, in document order, whatever their (resource-local) names ---------------------------
+class _ImgTree(T.Sort):
+    def fresh(self, ctx, name):
+        same = ctx.choose([True, False], "same-resource-name-in-both-forms")
+        exported = []
+        iw = SObj(None, {"export_image": SymFn(lambda I, it: (exported.append(it), "file-name")[1], "export_image"), "_exported": exported}, "imagewriter")
+        mk = lambda tag, nm: SObj(lay.LTImage, {"name": nm, "_tag": tag}, tag)
+        a, b, c3 = mk("img-a", "Im0"), mk("img-b", "Im0" if same else "Im1"), mk("img-c", "Im0")
+        f1 = SObj(lay.LTFigure, {"name": "Fm0", "_objs": [a]}, "fig1")
+        f2 = SObj(lay.LTFigure, {"name": "Fm1", "_objs": [b, c3]}, "fig2")
+        page = SObj(lay.LTPage, {"pageid": 1, "_objs": [f1, f2]}, "page")
+        return SObj(None, {"page": page, "iw": iw, "_same": same}, name)
+    def sample(self, rng):
+        return None
+    def from_model(self, ev, v):
+        return {"same_name": v.f["_same"]}
+
+
+lay = real_module("pdfminer.layout")
+_wt18 = stub("pdfminer.converter:TextConverter.write_text", ["self", "text"])
+sc = scenario("pdfminer.converter", "text-converter-hands-every-image-to-the-writer", """
+def render_images(conv, t):
+    conv.imagewriter = t.iw
+    conv.receive_layout(t.page)
+""", props=["C18", "C11"])
+sc.param("conv", T.Obj("pdfminer.converter:TextConverter", showpageno=T.Const(False), imagewriter=T.Const(None))).param("t", _ImgTree())
+sc.skip_cross = True
+sc.inline_callees = True
+sc.stubs = {"pdfminer.converter:TextConverter.write_text": _wt18}
+sc.mod("conv.imagewriter").mod("t.*")
+sc.ens("each-image-item-exported-once-in-document-order", lambda t: [i.f["_tag"] for i in t.iw._exported] == ["img-a", "img-b", "img-c"])
